@@ -465,3 +465,10 @@ Definition conc_spec_ok (o : conc_obs) : bool :=
   negb (co_hang o) && negb (co_stray o) && negb (co_race o) &&
   forallb (fun c => outs_eqb (co_conc c) (co_alone c) && tree_eqb (co_conc_tree c) (co_alone_tree c))
           (co_clients o).
+
+(** Support only, no model: caldav.Handler / carddav.Handler over an in-memory backend
+    of the harness, one shared client, goroutine i in its own collection.  The answers
+    are opaque canonical strings; the verdict is the property's own predicate
+    "concurrently = alone". *)
+Definition dav_spec_ok (hang : bool) (cls : list (list string * list string)) : bool :=
+  negb hang && forallb (fun c => names_eqb (fst c) (snd c)) cls.
